@@ -46,7 +46,7 @@ type translator struct {
 	err      string
 }
 
-var leanTy = map[trType]string{tNat: "Nat", tBool: "Bool", tBytes: "Bytes", tErr: "Bool", tStr: "Bytes"}
+var leanTy = map[trType]string{tNat: "Int", tBool: "Bool", tBytes: "Bytes", tErr: "Bool", tStr: "Bytes"}
 
 // library calls of the subset: package.selector -> (lean function of the prelude, argument types, result type)
 var libCalls = map[string]struct {
@@ -151,7 +151,7 @@ func (t *translator) expr(e ast.Expr, want trType) string {
 		return t.expr(x.X, want)
 	case *ast.BasicLit:
 		if x.Kind == token.INT && want == tNat {
-			return x.Value
+			return "(" + x.Value + " : Int)"
 		}
 		if x.Kind == token.STRING && (want == tBytes || want == tStr) {
 			s, _ := litString(x)
@@ -177,11 +177,11 @@ func (t *translator) expr(e ast.Expr, want trType) string {
 			return leanBytes(v)
 		}
 		if v, ok := t.consts[x.Name]; ok && want == tNat {
-			return fmt.Sprint(v)
+			return fmt.Sprintf("(%d : Int)", v)
 		}
 	case *ast.CallExpr:
 		if c, ok := isCall(e, "", "len"); ok && want == tNat && len(c.Args) == 1 {
-			return "(" + t.expr(c.Args[0], tBytes) + ").length"
+			return "((" + t.expr(c.Args[0], tBytes) + ").length : Int)"
 		}
 		if sel, ok := x.Fun.(*ast.SelectorExpr); ok {
 			if lc, ok := libCalls[exprString(sel)]; ok && len(x.Args) == len(lc.args) && (lc.res == want || (isBytesLike(lc.res) && isBytesLike(want))) {
@@ -196,7 +196,7 @@ func (t *translator) expr(e ast.Expr, want trType) string {
 			return t.expr(c.Args[0], tNat)
 		}
 		if c, ok := isCall(e, "binary.BigEndian", "Uint16"); ok && want == tNat && len(c.Args) == 1 {
-			return "(Gen.be16of " + t.expr(c.Args[0], tBytes) + ")"
+			return "((Gen.be16of " + t.expr(c.Args[0], tBytes) + " : Nat) : Int)"
 		}
 		if _, ok := isCall(e, "errors", "New"); ok && want == tErr {
 			return "true"
@@ -207,14 +207,14 @@ func (t *translator) expr(e ast.Expr, want trType) string {
 	case *ast.SliceExpr:
 		if isBytesLike(want) && x.Max == nil {
 			base := t.expr(x.X, tBytes)
-			lo := "0"
+			lo := "(0 : Int)"
 			if x.Low != nil {
 				lo = t.expr(x.Low, tNat)
 			}
 			if x.High == nil {
-				return fmt.Sprintf("(%s.drop %s)", base, paren(lo))
+				return fmt.Sprintf("(%s.drop (%s).toNat)", base, lo)
 			}
-			return fmt.Sprintf("(Gen.slice %s %s %s)", base, paren(lo), paren(t.expr(x.High, tNat)))
+			return fmt.Sprintf("(Gen.slice %s (%s).toNat (%s).toNat)", base, lo, t.expr(x.High, tNat))
 		}
 	case *ast.UnaryExpr:
 		if x.Op == token.NOT && want == tBool {
@@ -222,9 +222,10 @@ func (t *translator) expr(e ast.Expr, want trType) string {
 		}
 	case *ast.BinaryExpr:
 		switch x.Op {
-		case token.ADD:
+		case token.ADD, token.SUB:
 			if want == tNat {
-				return "(" + t.expr(x.X, tNat) + " + " + t.expr(x.Y, tNat) + ")"
+				op := map[token.Token]string{token.ADD: "+", token.SUB: "-"}[x.Op]
+				return "(" + t.expr(x.X, tNat) + " " + op + " " + t.expr(x.Y, tNat) + ")"
 			}
 		case token.LAND, token.LOR:
 			if want == tBool {
@@ -359,7 +360,7 @@ func (t *translator) stmts(list []ast.Stmt, ind string) string {
 			// the subset's locals are ints
 			v := t.expr(x.Rhs[0], tNat)
 			t.vars[id.Name] = tNat
-			return fmt.Sprintf("let %s : Nat := %s\n%s%s", id.Name, v, ind, t.stmts(rest, ind))
+			return fmt.Sprintf("let %s : Int := %s\n%s%s", id.Name, v, ind, t.stmts(rest, ind))
 		}
 	case *ast.SwitchStmt:
 		if x.Init != nil || x.Tag == nil {
@@ -499,7 +500,7 @@ func translateFunc(f *ast.File, fset *token.FileSet, name, leanName, failType st
 			if n == "" {
 				continue
 			}
-			zero := map[trType]string{tNat: "0", tBool: "false", tErr: "false", tStr: "[]"}[t.results[i]]
+			zero := map[trType]string{tNat: "(0 : Int)", tBool: "false", tErr: "false", tStr: "[]"}[t.results[i]]
 			if t.results[i] == tBytes {
 				continue // usable in explicit returns only (nil vs slice is not tracked through variables)
 			}
